@@ -78,6 +78,12 @@ pub struct RawPackage {
   /// back (a recorded finding; never set by the generator)
   #[serde(default)]
   pub allow_named_cycle: bool,
+  /// default exports of the other modules: (module, pick of a declaration)
+  #[serde(default)]
+  pub inner_defaults: Vec<(u8, u16)>,
+  /// write by-name re-exports before namespace re-exports
+  #[serde(default)]
+  pub named_first: bool,
 }
 
 pub fn raw_package(max_decls: usize) -> impl Strategy<Value = RawPackage> {
@@ -112,12 +118,14 @@ pub fn raw_package(max_decls: usize) -> impl Strategy<Value = RawPackage> {
     proptest::bool::weighted(0.3),
     proptest::option::weighted(0.2, any::<u16>()),
     proptest::collection::vec(
-      (1..4u8, 0..4u8, prop_oneof![2 => Just(0u8), 4 => Just(1u8), 1 => Just(2u8), 1 => Just(3u8)], any::<u16>()),
+      (1..4u8, 0..4u8, prop_oneof![2 => Just(0u8), 4 => Just(1u8), 2 => Just(2u8), 1 => Just(3u8)], any::<u16>()),
       0..=4,
     ),
+    proptest::collection::vec((1..4u8, any::<u16>()), 0..=2),
+    any::<bool>(),
   )
     .prop_map(
-      |(decls, n_modules, reexports, second_entry, default_export, inner_reexports)| RawPackage {
+      |(decls, n_modules, reexports, second_entry, default_export, inner_reexports, inner_defaults, named_first)| RawPackage {
         decls,
         n_modules,
         reexports,
@@ -125,6 +133,8 @@ pub fn raw_package(max_decls: usize) -> impl Strategy<Value = RawPackage> {
         default_export,
         inner_reexports,
         allow_named_cycle: false,
+        inner_defaults,
+        named_first,
       },
     )
 }
@@ -177,6 +187,9 @@ pub struct Recorded {
   pub star_exports: BTreeMap<String, Vec<String>>,
   /// (module path, declaration name) expected to survive
   pub retained: BTreeSet<(String, String)>,
+  /// declarations that may or may not survive (public only as the default
+  /// member of a namespace re-export)
+  pub maybe_retained: BTreeSet<(String, String)>,
   /// all module-level declaration names per module
   pub declared: BTreeMap<String, BTreeSet<String>>,
   /// a retained declaration is deliberately non-inferable
@@ -823,7 +836,12 @@ pub fn build(raw: &RawPackage) -> Package {
         },
         3 => {
           cx.rec.shapes.insert("initialiser-of-unknown-standing");
-          let init = match v % 10 {
+          let init = match v % 12 {
+            10 => "(v: unknown) => v as { k: number }[\"k\"]".to_string(),
+            11 => match sl.s_kind(&mut cx, i, |k| k.is_value()) {
+              Some((_, n)) => format!("(v: unknown) => v as typeof {n}"),
+              None => "(v: unknown) => v as [number, string][0]".to_string(),
+            },
             0 => "[Math.random(), 1]".to_string(),
             1 => "{ a: Math.random(), b: 1 }".to_string(),
             2 => "true ? 1 : Math.random()".to_string(),
@@ -956,18 +974,44 @@ pub fn build(raw: &RawPackage) -> Package {
   let offered = resolved_of(&cx.decls, &named_sel);
   let mut tails: Vec<String> = vec![String::new(); n_modules];
   let mut public_via_ns: BTreeSet<usize> = BTreeSet::new();
+  // default exports of the inner modules
+  let mut default_of: Vec<Option<usize>> = vec![None; n_modules];
+  for (m, pickv) in &raw.inner_defaults {
+    let m = (*m as usize) % n_modules;
+    if m == 0 || default_of[m].is_some() {
+      continue;
+    }
+    let cands: Vec<usize> = cx
+      .decls
+      .iter()
+      .enumerate()
+      .filter(|(_, d)| d.module == m && matches!(d.kind, Kind::Class | Kind::Function | Kind::Var | Kind::Enum))
+      .map(|(i, _)| i)
+      .collect();
+    if cands.is_empty() {
+      continue;
+    }
+    default_of[m] = Some(cands[idx(*pickv, cands.len())]);
+  }
   for m in 0..n_modules {
     let mut already: BTreeSet<usize> = own(m, &cx.decls);
+    if let Some(i) = default_of[m] {
+      tails[m].push_str(&format!("export default {};\n", cx.decls[i].name));
+    }
     for t in &star[m] {
       tails[m].push_str(&format!("export * from \"{}\";\n", rel(MODULE_PATHS[m], MODULE_PATHS[*t], false)));
       already.extend(offered[*t].iter().copied());
       cx.rec.shapes.insert(if m == 0 { "entry-star-re-export" } else { "inner-star-re-export" });
     }
+    let mut ns_lines = String::new();
     for t in &ns[m] {
-      tails[m].push_str(&format!(
+      ns_lines.push_str(&format!(
         "export * as ns{t} from \"{}\";\n",
         rel(MODULE_PATHS[m], MODULE_PATHS[*t], false)
       ));
+    }
+    if !raw.named_first {
+      tails[m].push_str(&ns_lines);
     }
     for (t, s, pickv) in named[m].clone() {
       let cands: Vec<usize> = offered[t]
@@ -1001,6 +1045,33 @@ pub fn build(raw: &RawPackage) -> Package {
       }
       already.extend(sel.iter().copied());
       named_sel[m].push((t, sel));
+      // and the target's default export under a name
+      if let Some(di) = default_of[t] {
+        if pickv % 2 == 0 && !tails[m].contains(&format!(" Df{t} ")) {
+          tails[m].push_str(&format!(
+            "export {{ default as Df{t} }} from \"{}\";\n",
+            rel(MODULE_PATHS[m], MODULE_PATHS[t], false)
+          ));
+          named_sel[m].push((t, vec![di]));
+          cx.rec.shapes.insert("default-re-exported-by-name");
+        }
+      }
+    }
+    if raw.named_first {
+      tails[m].push_str(&ns_lines);
+    }
+  }
+  // a by-name re-export of a default needs the target to have named
+  // re-exports at all; give the entry module one more chance
+  for t in 1..n_modules {
+    if let Some(di) = default_of[t] {
+      if raw.named_first && !tails[0].contains(&format!(" Df{t} ")) && (ns[0].contains(&t) || star[0].contains(&t)) {
+        let line = format!("export {{ default as Df{t} }} from \"{}\";\n", rel(MODULE_PATHS[0], MODULE_PATHS[t], false));
+        // before the namespace / star lines of the entry module
+        tails[0] = format!("{line}{}", tails[0]);
+        named_sel[0].push((t, vec![di]));
+        cx.rec.shapes.insert("default-re-exported-by-name");
+      }
     }
   }
   let resolved = resolved_of(&cx.decls, &named_sel);
@@ -1068,7 +1139,7 @@ pub fn build(raw: &RawPackage) -> Package {
     for t in &ns[m] {
       names.insert(format!("ns{t}"));
     }
-    if m == 0 && default_decl.is_some() {
+    if (m == 0 && default_decl.is_some()) || default_of[m].is_some() {
       names.insert("default".to_string());
     }
     rec.exports.insert(MODULE_PATHS[m].to_string(), names);
@@ -1106,6 +1177,25 @@ pub fn build(raw: &RawPackage) -> Package {
   if let Some(i) = default_decl {
     work.push(i);
   }
+  // defaults: of entrypoints, and of namespace re-export targets of public
+  // modules (`ns.default`); `export *` does not pass a default on
+  for e in &entry_modules {
+    if let Some(i) = default_of[*e] {
+      work.push(i);
+    }
+  }
+  // whether `export * as ns from "./t"` makes the default export of `t`
+  // public (`ns.default`) is left open: fast check traces a namespace
+  // re-export without the default; declarations that are public only that
+  // way may or may not be retained
+  let mut ns_defaults: Vec<usize> = Vec::new();
+  for m in &public_modules {
+    for t in &ns[*m] {
+      if let Some(i) = default_of[*t] {
+        ns_defaults.push(i);
+      }
+    }
+  }
   // (declaration, whole?) - a namespace reached through `N.In` only is
   // retained in part: just what `In` refers to becomes public with it
   let mut retained: BTreeSet<usize> = BTreeSet::new();
@@ -1129,6 +1219,26 @@ pub fn build(raw: &RawPackage) -> Package {
       rec.max_chain = rec.max_chain.max(dep + 1);
       // a reference to a namespace is the qualified name of its member
       work.push((*j, decls[*j].kind != Kind::Namespace));
+    }
+  }
+  // the same closure once more from the namespace defaults: what only they
+  // reach is neither demanded nor forbidden
+  {
+    let mut seen: BTreeSet<usize> = retained.clone();
+    let mut work: Vec<(usize, bool)> = ns_defaults.iter().map(|i| (*i, true)).collect();
+    while let Some((i, all)) = work.pop() {
+      if !seen.insert(i) {
+        continue;
+      }
+      let d = &decls[i];
+      rec.maybe_retained.insert((MODULE_PATHS[d.module].to_string(), d.name.clone()));
+      if d.non_inferable || d.maybe_inferable {
+        rec.maybe_diagnostic = true;
+      }
+      let refs: &Vec<usize> = if all { &d.sig_refs } else { &d.member_refs };
+      for j in refs {
+        work.push((*j, decls[*j].kind != Kind::Namespace));
+      }
     }
   }
   for i in &retained {
